@@ -57,3 +57,22 @@ package codegen
 //@   ghostcall scanBlockForStages visitedBlock
 //@   traverse stepmark 1 block ir.Block visitedBlock($)
 //
+//
+// ---- order of emitted declarations is independent of map iteration (C12) ---------------
+//
+// The combined texture/sampler pairs of one texture are collected from a map and
+// then sorted; the comparator must be a strict order that separates any two
+// pairs with different samplers, otherwise their relative order is whatever the
+// map iteration produced.
+//
+//@ func (*Writer).isSamplerComparison
+//@   mode bv
+//@   tags C12
+//@   pure
+//@   functional
+//@   trusted
+//
+//@ func (*Writer).writeGlobalVariables
+//@   mode bv
+//@   tags C12
+//@   order sort.Slice#1 [combined-samplers] key x :: x.samplerHandle
